@@ -156,8 +156,9 @@ Unsubscribe(c, k, w, syn) ==
                                a |-> IF x \in r.note /\ ssid \in held[c] THEN { PPres("unsubscribe", w, c, user[c]) } ELSE {}]]
                 /\ UNCHANGED <<conn, user, will, links, store>>
 
-(* PUBLISH.  via = "" or a link name (topic of <= 2 characters).  A request = [k, w, syn, me0, ttl] *)
-LinkOf(c, n) == IF \E l \in links[c] : l.name = n THEN CHOOSE l \in links[c] : l.name = n ELSE [name |-> n, k |-> "", w |-> <<>>, syn |-> "empty", me0 |-> FALSE, ttl |-> 0]
+(* PUBLISH.  via = "" or a link name (topic of <= 2 characters).  A request = [k, w, syn, me0, ttl];
+   ttl = -1: no ttl option, 0: an explicit ?ttl=0 (changes nothing), > 0: the requested ttl *)
+LinkOf(c, n) == IF \E l \in links[c] : l.name = n THEN CHOOSE l \in links[c] : l.name = n ELSE [name |-> n, k |-> "", w |-> <<>>, syn |-> "empty", me0 |-> FALSE, ttl |-> -1]
 
 PubError(k, w, syn) ==
     IF syn # "ok" THEN 400 ELSE IF IsWild(w) THEN 403 ELSE IF ~Perm(k, "w") \/ IsExt(k) THEN 401 ELSE 0
